@@ -67,13 +67,13 @@ type verifMeta struct {
 	size   uint
 }
 
-func (m verifMeta) TelemetryGUID() string                 { return "" }
-func (m verifMeta) InstanceName() string                  { return "" }
-func (m verifMeta) GetGenesisID() string                  { return "verif" }
-func (m verifMeta) PublicAddress() string                 { return "" }
-func (m verifMeta) RandomID() string                      { return "" }
-func (m verifMeta) SupportedProtoVersions() []string      { return SupportedProtocolVersions }
-func (m verifMeta) VoteCompressionEnabled() bool          { return m.enable }
+func (m verifMeta) TelemetryGUID() string                  { return "" }
+func (m verifMeta) InstanceName() string                   { return "" }
+func (m verifMeta) GetGenesisID() string                   { return "verif" }
+func (m verifMeta) PublicAddress() string                  { return "" }
+func (m verifMeta) RandomID() string                       { return "" }
+func (m verifMeta) SupportedProtoVersions() []string       { return SupportedProtocolVersions }
+func (m verifMeta) VoteCompressionEnabled() bool           { return m.enable }
 func (m verifMeta) StatefulVoteCompressionTableSize() uint { return m.size }
 
 // VerifPeerConfig describes one end of a simulated connection.
@@ -158,7 +158,7 @@ type VerifCodecState struct {
 	StatelessDecode bool // incoming AV is run through the stateless decoder
 	StatefulEnabled bool
 	TableSize       uint
-	Enc, Dec        []byte // vpack VerifState of the stateful encoder / decoder, nil before first use
+	Enc, Dec        []byte // vpack VerifStateDigest of the stateful encoder / decoder, nil before first use
 }
 
 // CodecState reads the peer's codec state; call only while the peer's loops are quiescent.
@@ -167,20 +167,31 @@ func (p *VerifPeer) CodecState(withTables bool) VerifCodecState {
 	s := VerifCodecState{StatelessDecode: c.avdec.enabled, StatefulEnabled: c.statefulVoteEnabled.Load(), TableSize: c.statefulVoteTableSize}
 	if withTables {
 		if c.statefulVoteEnc != nil {
-			s.Enc = c.statefulVoteEnc.VerifState()
+			d := c.statefulVoteEnc.VerifStateDigest()
+			s.Enc = d[:]
 		}
 		if c.statefulVoteDec != nil {
-			s.Dec = c.statefulVoteDec.VerifState()
+			d := c.statefulVoteDec.VerifStateDigest()
+			s.Dec = d[:]
 		}
 	}
 	return s
 }
 
-// EncState returns the stateful encoder's table state (nil before first use). It is meant to be
-// called from the peer's own write loop (inside the simulated conn's WriteMessage).
+// EncState returns the digest of the stateful encoder's table state (nil before first use). It is
+// meant to be called from the peer's own write loop (inside the simulated conn's WriteMessage).
 func (p *VerifPeer) EncState() []byte {
 	if c := p.wp.msgCodec; c != nil && c.statefulVoteEnc != nil {
-		return c.statefulVoteEnc.VerifState()
+		d := c.statefulVoteEnc.VerifStateDigest()
+		return d[:]
+	}
+	return nil
+}
+
+// DecStateDump returns the full serialised state of the stateful decoder (diagnostics only).
+func (p *VerifPeer) DecStateDump() []byte {
+	if c := p.wp.msgCodec; c != nil && c.statefulVoteDec != nil {
+		return c.statefulVoteDec.VerifState()
 	}
 	return nil
 }
